@@ -15,6 +15,8 @@ type Token struct {
 	Name string
 	Str  string
 	Pos  Position
+	// NewLine tells that the token is not on the line on which the token in front of it ends.
+	NewLine bool
 }
 
 func (self *Token) String() string {
